@@ -87,12 +87,13 @@ CHECKS = {
             'is covered by the torn variants, not observed directly); process death, not power loss; README content is outside this property.',
             'DESIGN.md section 4 C17, 3.6'),
     'C19': ('sched', 'model_checking', E5,
-            'Breadth-first search over ALL interleavings of start/advance/close/drop of 2 (quick) / 3 (thorough) iterchunks generators '
-            'with different chunk parameters, enter/exit of 1 / 2 nested open_array contexts, an element read and an element write on one '
-            '4 MiB Array, to the fixpoint of the state graph; every transition is one real execution in its own forked process (so a '
-            'SIGSEGV is observed), checked for: not killed, chunk == contents at the moment it was returned, StopIteration exactly at '
-            'the end, read == contents, write visible in the raw file / a fresh handle / the live handle, and in every quiescent state '
-            'no descriptor or map of the data file left.',
+            'Breadth-first search over ALL interleavings, to the fixpoint of the state graph, of start/advance/close/drop of iterchunks '
+            'generators with different chunk parameters, enter/exit of nested open_array contexts, slice reads and element writes of two '
+            'cells lying in frame overlaps, an opening that fails part-way and an out-of-range read, on one 4 MiB Array (worlds: quick '
+            '{g1,g2,x1}; thorough {g1,g2,x1,x2} and {g1,g2,g3}; both plus a read-only handle whose context opens r+); every transition is '
+            'one real execution in its own forked process (so a SIGSEGV is observed), checked for: not killed, chunk == contents at the '
+            'moment it was returned, StopIteration exactly at the end, read == contents and still unchanged later, write visible in the '
+            'raw file / a fresh handle / the live handle, and in every quiescent state no descriptor or map of the data file left.',
             'Trusted: state canonicalisation by generic introspection of the handle and generator frames (finer than needed, never '
             'coarser); one thread; generators and contexts are one-shot, contexts exit in LIFO order.',
             'DESIGN.md section 4 C19, 3.7'),
